@@ -53,19 +53,22 @@ impl Lay {
     }
     /// Random admissible layout. `small` keeps blobs in the hundreds of bytes to few KiB.
     pub fn random(rng: &mut Rng, small: bool) -> Lay {
-        let n = if small { *rng.pick(&[8u32, 16]) } else { *rng.pick(&[8u32, 16, 32, 64]) };
+        let n = if small { *rng.pick(&[8u32, 16]) } else { *rng.pick(&[8u32, 16, 32, 64, 128]) };
         let base2k = rng.range(8, 17) as u32;
-        let size = rng.range(2, if small { 3 } else { 4 }) as u32;
+        // size 1 is legal for the vector types only (matrix types need size > dsize): such layouts are
+        // skipped for the kinds whose alloc rejects them
+        let size = if rng.chance(150) { 1 } else { rng.range(2, if small { 3 } else { 4 }) as u32 };
         // k deliberately not a multiple of base2k most of the time
         let k = base2k * (size - 1) + rng.range(1, base2k as u64) as u32;
-        let dsize = rng.range(1, (size - 1).min(3) as u64) as u32;
-        let dnum = rng.range(1, (size / dsize) as u64) as u32;
+        let dsize = rng.range(1, (size.saturating_sub(1)).clamp(1, 3) as u64) as u32;
+        let dnum = rng.range(1, (size / dsize).max(1) as u64) as u32;
         Lay {
             n,
             base2k,
             k,
             rank_in: rng.range(1, if small { 2 } else { 3 }) as u32,
-            rank_out: rng.range(1, if small { 2 } else { 3 }) as u32,
+            // rank 0 (a single column) is legal for the GLWE-like vector types
+            rank_out: if rng.chance(100) { 0 } else { rng.range(1, if small { 2 } else { 3 }) as u32 },
             dnum,
             dsize,
             n_lwe: rng.range(1, if small { 4 } else { 9 }) as u32,
@@ -87,9 +90,9 @@ impl Lay {
             }
         } else {
             // shrink by one limb if possible while staying admissible (size > dsize, dnum*dsize <= size)
-            let ns = size.saturating_sub(1).max(2);
+            let ns = if size >= 2 { size.saturating_sub(1).max(2) } else { 1 };
             l.k = l.base2k * (ns - 1) + rng.range(1, l.base2k as u64) as u32;
-            l.dsize = l.dsize.min(ns - 1).max(1);
+            l.dsize = l.dsize.min(ns.saturating_sub(1)).max(1);
             l.dnum = l.dnum.min(ns / l.dsize).max(1);
             if rng.chance(300) && l.cols > 1 {
                 l.cols -= 1;
